@@ -152,6 +152,12 @@ impl State {
     ) -> eyre::Result<()> {
         let contents =
             serde_json::to_string_pretty(self).wrap_err("failed json-encoding submission state")?;
+        #[cfg(all(test, feature = "verif"))]
+        let _verif_after_rename = super::verif::hooks::AfterRenameGuard::new();
+        #[cfg(all(test, feature = "verif"))]
+        super::verif::hooks::fault_point("state.write.before_tmp")
+            .await
+            .wrap_err("injected fault before writing temp file")?;
         tokio::fs::write(&temp_file.0, &contents)
             .await
             .wrap_err_with(|| {
@@ -160,6 +166,10 @@ impl State {
                     temp_file.0.display()
                 )
             })?;
+        #[cfg(all(test, feature = "verif"))]
+        super::verif::hooks::fault_point("state.write.after_tmp")
+            .await
+            .wrap_err("injected fault after writing temp file")?;
         tokio::fs::rename(&temp_file.0, &destination.0)
             .await
             .wrap_err_with(|| {
@@ -300,7 +310,10 @@ impl PreparedSubmission {
             "cannot submit a sequencer block at height below or equal to what was already \
              successfully submitted"
         );
+        #[cfg(not(all(test, feature = "verif")))]
         let created_at = SystemTime::now();
+        #[cfg(all(test, feature = "verif"))]
+        let created_at = super::verif::hooks::now();
         let state =
             State::new_prepared(sequencer_height, last_submission, blob_tx_hash, created_at);
         state
@@ -327,10 +340,24 @@ impl PreparedSubmission {
     ///
     /// This is at least 15 seconds, but up to a maximum of a minute from when the submission was
     /// first attempted.
+    #[cfg(not(all(test, feature = "verif")))]
     pub(super) fn confirmation_timeout(&self) -> Duration {
         std::cmp::max(
             Duration::from_secs(15),
             Duration::from_secs(60).saturating_sub(self.created_at.elapsed().unwrap_or_default()),
+        )
+    }
+
+    /// Same as above with `SystemTime::now()` replaced by the simulated wall clock.
+    #[cfg(all(test, feature = "verif"))]
+    pub(super) fn confirmation_timeout(&self) -> Duration {
+        std::cmp::max(
+            Duration::from_secs(15),
+            Duration::from_secs(60).saturating_sub(
+                super::verif::hooks::now()
+                    .duration_since(self.created_at)
+                    .unwrap_or_default(),
+            ),
         )
     }
 
